@@ -1650,6 +1650,52 @@ def s(ctx):
 
 # ---------------------------------------------------------------------------
 # seeded faults (sensitivity self-test)
+@R.clause("C11.h", "tampering with the partial IV or the length bits of the option is detected: the request identifiers keep the option's PIV bytes verbatim, and every field cut out of the option is preceded by a bounds check")
+def h_fields(ctx):
+    """Added after two independently written breaking changes: (1) RequestIdentifiers stored the partial IV in
+    minimal-length form, so the external AAD no longer depended on the exact PIV bytes of the option and a
+    zero-extended PIV still verified; (2) _uncompress checked `not tail` instead of `len(tail) < pivsz` before
+    `tail[:pivsz]`, so (thanks to slice tolerance) a flipped length bit announcing more PIV bytes than present went
+    unnoticed.  Necessary conditions decided here: the constructor stores kid and partial_iv parameters unmodified;
+    in _uncompress every slice `X[:n]` with a non-constant n that is stored as a field is dominated by the failing
+    side of `len(X) < n` (or `len(X) - k < n`), whose other side raises DecodeError."""
+    ri = ctx.prog.func("oscore.RequestIdentifiers.__init__")
+    p = params(ri)
+    for attr, par in (("kid", p[0]), ("partial_iv", p[1])):
+        st = [n for n in walk_no_nested(ri.node) if isinstance(n, ast.Assign) and any(chain(t) == "self." + attr for t in n.targets)]
+        ok = len(st) == 1 and isinstance(st[0].value, ast.Name) and st[0].value.id == par and not writes_to_name(ri.node, par)
+        ctx.ob("RequestIdentifiers keeps the %s exactly as given (it enters the external AAD and the nonce)" % attr, ok, ri, st[0] if st else ri.node,
+               construct=stmt_text(st[0]) if st else "RequestIdentifiers.__init__: %s" % attr)
+    un = ctx.prog.func("oscore.CanUnprotect._uncompress")
+    cfg = cfg_of(un)
+    N = Normalizer()
+    n_checked = 0
+    for st in walk_no_nested(un.node):
+        if not (isinstance(st, ast.Assign) and isinstance(st.value, ast.Subscript) and isinstance(st.value.slice, ast.Slice)):
+            continue
+        sl = st.value.slice
+        if sl.lower is not None or sl.upper is None or isinstance(sl.upper, ast.Constant):
+            continue
+        if not (isinstance(st.targets[0], ast.Subscript) and chain(st.targets[0].value) == "unprotected"):
+            continue
+        X = st.value.value
+        if not isinstance(X, ast.Name):
+            continue
+        n_checked += 1
+        nid = cfg.loc1(st)
+        facts = cmp_guard_nf(cfg, nid, N)
+        ln, up = Poly.atom("len(%s)" % X.id), N.poly(sl.upper)
+        ok = False
+        for k in range(0, 3):
+            want = N.negate(("lt", ln - Poly.const(k) - up))
+            if want in facts:
+                # a guard on len(X) - k is only valid if X was shortened by k afterwards; k = 0 is the plain case
+                ok = ok or k == 0 or any(isinstance(w, ast.Assign) and match("%s[%d:]" % (X.id, k), w.value) is not None and cfg.dominates(cfg.loc1(w), nid) for w in writes_to_name(un.node, X.id))
+        ctx.ob("the field cut out of the option is known to be completely present (len check against the announced length)", ok, un, st,
+               detail="guards: %s" % sorted(map(repr, facts)))
+    ctx.floor("length-prefixed fields in _uncompress", n_checked, 2)
+
+
 F_OS = "aiocoap/oscore.py"
 R.seed("C11.a", F_OS, "            uri_host=outer_host,\n", "            uri_host=outer_host,\n            uri_path=message.opt.uri_path,\n", "a Class E option copied to the outer message")
 R.seed("C11.a", F_OS, "        outer_message.payload = payload\n", "        outer_message.payload = plaintext\n", "plaintext sent as the outer payload")
@@ -1686,3 +1732,6 @@ R.seed("C11.g", F_OS, '            return aead.AESGCM(key).decrypt(iv, ciphertex
 R.seed("C11.g", F_OS, '            return aead.ChaCha20Poly1305(key).decrypt(iv, ciphertext_and_tag, aad)\n        except cryptography.exceptions.InvalidTag:\n            raise ProtectionInvalid("Tag invalid")',
        '            return aead.ChaCha20Poly1305(key).decrypt(iv, ciphertext_and_tag, aad)\n        except cryptography.exceptions.InvalidTag:\n            raise', "InvalidTag escapes unconverted")
 R.seed("C11.g", F_OS, 'raise ProtectionInvalid("Padding is inconsistent")', 'raise ValueError("Padding is inconsistent")')
+
+R.seed("C11.h", F_OS, "        self.partial_iv = partial_iv\n        self.can_reuse_nonce", "        self.partial_iv = partial_iv.lstrip(b\"\\0\") or b\"\\0\"\n        self.can_reuse_nonce", "canonicalised PIV: a zero-extended PIV in the option still verifies")
+R.seed("C11.h", F_OS, "            if len(tail) < pivsz:\n", "            if not tail:\n", "flipped length bits announcing more PIV bytes than present go unnoticed")
